@@ -405,5 +405,6 @@ package transform
 //@   ensures [err-zoom] startPoint != nil && endPoint != nil && !(0 <= hZoom && hZoom <= 35 && 0 <= vZoom && vZoom <= 35) ==> r1 != nil && len(r0) == 0
 //@   ensures [err-radius] startPoint != nil && endPoint != nil && radius < 0.0 ==> r1 != nil && len(r0) == 0
 //@   ensures [nodup] r1 == nil ==> nodup(r0)
-//@ -- (the clause "contains the line's IDs" needs two chained set-membership instantiations the solvers do not find; not claimed)
+//@   -- the corridor contains every ID the line query returned for the same arguments ($result: the result of that call in the body)
+//@   ensures [contains-line] r1 == nil ==> (forall e: str :: member(e, $result(GetExtendedSpatialIdsOnLine, 0)) ==> member(e, r0))
 //@ end
